@@ -118,6 +118,23 @@ def base_local(body, local):
     return cur
 
 
+def named_dest_of_stmt(body, st):
+    """the named local an aggregate built by statement `st` ends up in (its own destination or the local it is moved into next)"""
+    l = st.lhs.local
+    for _ in range(4):
+        if body.local_name(l):
+            return l
+        nxt = None
+        for blk in body.blocks:
+            for s in blk.stmts:
+                if s.k == "a" and s.lhs.is_local() and s.rv.k == "use" and s.rv.ops[0].place is not None and s.rv.ops[0].place.is_local() and s.rv.ops[0].place.local == l:
+                    nxt = s.lhs.local
+        if nxt is None:
+            return l
+        l = nxt
+    return l
+
+
 def named_dest(body, t):
     """the named local a call's result ends up in (the destination itself or the local it is moved into next)"""
     l = t.dest.local
@@ -563,12 +580,39 @@ def r4_r5(ctx):
             n_hdr = canon(p.operand(newp[0][1].args[1]))
             r4.check(n_enc == n_hdr and n_enc[0] == "call", "Session::encrypt_with_header: the AEAD nonce is the one given to Packet::new_authheader", "Session::encrypt_with_header|nonce",
                      "Session::encrypt_with_header encrypts under a nonce that is not the one in the packet header", loc=b.loc(t.line))
-        r4.check(init == "core::num::to_be_bytes(%s)" % iv_e and ext == ["crate::packet::PacketHeader::encode(%s)" % hdr_e] and not other and fmt(e_aad, -60) == init,
+        aad_ok = init == "core::num::to_be_bytes(%s)" % iv_e and ext == ["crate::packet::PacketHeader::encode(%s)" % hdr_e] and not other and fmt(e_aad, -60) == init
+        if not aad_ok and e_aad[0] == "call" and e_aad[1].endswith("packet::Packet::authenticated_data") and not ext and not other:
+            # `packet.authenticated_data()` of the packet that is returned: the library's own IV || header (its body is checked to be that)
+            ad = facts.one(r"crate::packet::Packet::authenticated_data$")
+            r4.analysed(ad)
+            adp = Prov(ad, facts)
+            adl = [base_local(ad, st_.rv.ops[0].place.local) for blk in ad.blocks for st_ in blk.stmts if st_.k == "a" and st_.lhs.is_local() and st_.lhs.local == 0 and
+                   st_.rv.k == "use" and st_.rv.ops[0].place is not None and blk.idx in ad.live_blocks()]
+            lib_ok = False
+            for l in set(adl):
+                w2 = writes_into(ad, adp, l)
+                lib_ok = F(adp.local(l)) == "core::num::to_be_bytes(self.iv)" and [F(src[0]) for wb, m, src, wt in w2] == ["crate::packet::PacketHeader::encode(self.header)"]
+            src_p = canon(e_aad[2][0])
+            # (a later `packet.message = ..` shows up as a second alternative of the local's value: the packet meant is the constructed one)
+            alts_p = list(src_p[1]) if src_p[0] == "phi" else [src_p]
+            if fn == "encrypt_message":
+                built = [a for a in alts_p if a[0] == "agg" and a[1].endswith("packet::Packet::Packet") or (a[0] == "agg" and a[1].endswith("Packet"))]
+                same = len(built) == 1 and fmt(dict(built[0][2]).get("iv", ("unknown", "")), -60) == iv_e and fmt(dict(built[0][2]).get("header", ("unknown", "")), -60) == hdr_e
+            else:
+                same = any(fmt(a, -60) == pe for a in alts_p)
+            aad_ok = lib_ok and same
+        r4.check(aad_ok,
                  "Session::%s: associated data = iv.to_be_bytes() || header.encode() of the returned packet" % fn, "Session::%s|aad" % fn,
                  "Session::%s authenticates %s || %s, which is not IV || header of the packet it returns" % (fn, init[:160], [x[:160] for x in ext]), loc=b.loc(t.line))
         # ciphertext placed in the packet
         if fn == "encrypt_message":
             okm = any(x[0] == "call" and short(x[1]).endswith("crypto::encrypt_message") for x in walk(msg_e))
+            if not okm:
+                # the packet is built first and its message field assigned afterwards (`packet.message = encrypt(..)?`), nothing else
+                pk_l = named_dest_of_stmt(b, pk[0])
+                asg = [s_ for blk in b.blocks if blk.idx in b.live_blocks() for s_ in blk.stmts if s_.k == "a" and s_.lhs.proj and s_.lhs.local == pk_l and not any(x == "*" for x in s_.lhs.proj)]
+                flds = [fmt(canon(p.rvalue(s_.rv, 0))) for s_ in asg]
+                okm = len(flds) == 1 and "crypto::encrypt_message" in flds[0] and "message" in asg[0].lhs.field_names()
             r4.check(okm, "Session::encrypt_message: packet.message is the AEAD output", "Session::encrypt_message|ciphertext", "Session::encrypt_message puts %s in the packet" % fmt(msg_e)[:160], loc=b.loc(t.line))
         else:
             pk_l = named_dest(b, newp[0][1])
